@@ -18,10 +18,14 @@ class ScriptProc(Process):
         self._rectime = bool(spec["flags"] & 1)
         self._stateless = bool(spec["flags"] & 2)
         self._raise_at = spec.get("raise_at", -1)
-        self._idx = 0
-        self._hist = []
+        # `_idx` and `_hist` are created LAZILY, by the first handler call (a common Python idiom): a state saved
+        # before that call does not contain them, and restoring it must not leave a later value behind
 
     def _handle(self, key, ctx: Context):
+        if getattr(self, "_idx", None) is None:
+            self._idx = 0
+        if getattr(self, "_hist", None) is None:
+            self._hist = []
         time = struct.unpack("<Q", struct.pack("<d", float(ctx.time())))[0] if self._rectime else None
         if not self._stateless:
             self._hist.append((tuple(key), time))
